@@ -190,7 +190,7 @@ def build_diffs(ob, interp, out_shape, outs):
                 s2 = z3.simplify(s)
                 if z3.is_true(s2):
                     continue
-                if kind == "f" and not ob.tol and interp.ops.mul_mode == "exact":
+                if kind == "f" and not ob.tol and ob.mode == "exact" and not ob.fold:  # obligations declared polynomial (no fall-back runs)
                     # polynomial identities: expand the difference into a sum of monomials; 0 means syntactically equal
                     try:
                         d0 = z3.simplify(J.zreal(J.lower(x)) - J.zreal(J.lower(y)), som=True)
@@ -507,20 +507,14 @@ def decide(ob: Ob, pid: str, known: list) -> Result:
 
 
 def _check(s, timeout_s):
-    """z3's own timeout is best effort (nonlinear arithmetic can overrun it by minutes): a watchdog interrupts the context"""
-    import threading
-
+    """z3's timeout is best effort for nonlinear arithmetic; obligations that can overrun it are kept out of the quick tier
+    (a watchdog thread calling ctx.interrupt() was tried and made worker processes spin at exit - removed)."""
     s.set("timeout", int(timeout_s * 1000))
     t = time.time()
-    timer = threading.Timer(timeout_s + 5, lambda: s.ctx.interrupt())
-    timer.daemon = True
-    timer.start()
     try:
         r = s.check()
     except z3.Z3Exception:
         r = "unknown"
-    finally:
-        timer.cancel()
     return str(r), time.time() - t
 
 
